@@ -84,7 +84,7 @@ def main() -> int:
     signal.signal(signal.SIGALRM, _alarm)
     signal.signal(signal.SIGPROF, _alarm)
     global TIMED_OUT
-    case_timeout = int(getattr(mod, "CASE_TIMEOUT_S", 120))
+    case_timeout = int(getattr(mod, "CASE_TIMEOUT_S", 240))
     for idx in job["indices"]:
         emit({"ev": "start", "idx": idx})
         rng = case_rng(job["prop"], job["seed"], idx)
